@@ -59,6 +59,7 @@ type Pipeline struct {
 	Opts     GenOpts
 	NCases   int
 	Workers  int
+	Search   bool // monitors only, no model comparison
 }
 
 func LoadCase(path string) (Case, error) {
@@ -218,7 +219,11 @@ func (p *Pipeline) Run() *Result {
 		cases = append(cases, GenCase(r, p.Opts))
 	}
 	runs := runAll(cases, p.Workers)
-	model, err := RunModel(p.Driver, cases)
+	var model [][]string
+	var err error
+	if !p.Search {
+		model, err = RunModel(p.Driver, cases)
+	}
 	if err != nil {
 		res.Note = "model driver failed: " + err.Error()
 		res.Disagreements = append(res.Disagreements, DisRec{File: "", Op: "driver", Impl: "", Model: err.Error()})
@@ -270,7 +275,11 @@ func (p *Pipeline) Run() *Result {
 		if len(res.Samples) < 3 && nontrivial(cr) && i >= res.CorpusCases {
 			res.Samples = append(res.Samples, cr.c.String())
 		}
-		if d := Compare(p.Prop, i, cr.c, cr.obs, model[i]); d != nil && len(res.Disagreements) < 5 {
+		var d *Disagreement
+		if !p.Search {
+			d = Compare(p.Prop, i, cr.c, cr.obs, model[i])
+		}
+		if d != nil && len(res.Disagreements) < 5 {
 			small := shrink(cr.c, p.disagrees)
 			obs2, _, _ := RunImpl(small)
 			m2, _ := RunModel(p.Driver, []Case{small})
